@@ -433,7 +433,7 @@ func statsReplay(job []byte, out *Out) error {
 			}
 		}
 	}
-	// overlapping calls: the same calls a third time from eight goroutines at once (as the parallel workflows and the batch
+	// overlapping calls: the same calls again from sixteen goroutines at once (as the parallel workflows and the batch
 	// detector call them); a result that depends on what other goroutines are doing differs bit-wise from the first pass
 	type unit struct {
 		vi, ci int
@@ -451,19 +451,24 @@ func statsReplay(job []byte, out *Out) error {
 		var wg sync.WaitGroup
 		var mu sync.Mutex
 		next := 0
-		for g := 0; g < 8; g++ {
+		// every unit is taken up by several goroutines in close succession (rounds), so that calls of the same test with
+		// the same parameters overlap even when a single call lasts microseconds
+		const rounds = 4
+		start := make(chan struct{})
+		for g := 0; g < 16; g++ {
 			wg.Add(1)
 			go func() {
 				defer wg.Done()
+				<-start
 				for {
 					mu.Lock()
 					k := next
 					next++
 					mu.Unlock()
-					if k >= len(units) {
+					if k >= rounds*len(units) {
 						return
 					}
-					u := units[k]
+					u := units[k/rounds]
 					v := &j.Vectors[u.vi]
 					bits, err := materialise(v)
 					if err != nil {
@@ -481,6 +486,7 @@ func statsReplay(job []byte, out *Out) error {
 				}
 			}()
 		}
+		close(start)
 		wg.Wait()
 	}
 	for _, res := range order {
